@@ -35,6 +35,8 @@ const (
 	tracebackLen  = 32
 	tracebackStop = "pgregory.net/rapid.checkOnce"
 	runtimePrefix = "runtime."
+
+	nonFatalTraceback = "    <non-fatal failure>\n"
 )
 
 var (
@@ -365,7 +367,14 @@ func checkOnce(t *T, prop func(*T)) (err *testError) {
 	if t.tbLog {
 		t.tb.Helper()
 	}
-	defer func() { err = panicToError(recover(), 3) }()
+	defer func() {
+		err = panicToError(recover(), 3)
+		// T is reused for the next test case, and a non-fatal failure can be followed by a skip
+		// or be signalled from a cleanup function: it still falsifies this (and only this) test case.
+		if msg := t.takeFailed(); msg != "" && (err == nil || err.isInvalidData()) {
+			err = &testError{data: msg, traceback: nonFatalTraceback}
+		}
+	}()
 
 	defer t.cleanup()
 	prop(t)
@@ -780,6 +789,15 @@ func (t *T) fail(now bool, msg string) {
 	if now {
 		panic(t.failed)
 	}
+}
+
+func (t *T) takeFailed() stopTest {
+	t.mu.Lock()
+	defer t.mu.Unlock()
+
+	failed := t.failed
+	t.failed = ""
+	return failed
 }
 
 func (t *T) failOnError() {
